@@ -333,8 +333,19 @@ AssignTo(P, lhs, v, st0) ==
          LET nv == PutPath(MapGet(st.oos, S(lhs.name)), ix.vs, v) IN IF nv.k = "error" THEN Fatal(st) ELSE [st EXCEPT !.oos = MapPut(@, S(lhs.name), nv)]
     [] lhs.t = "srec" -> (IF v.k = "map" THEN [st EXCEPT !.rec = v.m] ELSE Fatal(st))
 
-\* a record as the writer prints it: scalar texts (nested maps do not occur in the record-writing families)
-RecText(rec) == [i \in 1..Len(rec) |-> <<Str(rec[i][1]), Str(rec[i][2])>>]
+\* a record as a non-JSON writer prints it (flatten-unflatten.md: "if the output format is non-JSON, then ... map-valued
+\* fields are converted to multiple fields, keyed by the original name, a dot and the map keys; empty key-value pairs are
+\* written as {} and []"; arrays flatten by their 1-up positions)
+RECURSIVE FlatPairs(_, _)
+FlatPairs(prefix, v) ==
+  IF v.k = "map" THEN
+       (IF v.m = <<>> THEN << <<prefix, "{}">> >>
+        ELSE LET F[i \in 0..Len(v.m)] == IF i = 0 THEN <<>> ELSE F[i - 1] \o FlatPairs(prefix \o "." \o Str(v.m[i][1]), v.m[i][2]) IN F[Len(v.m)])
+  ELSE IF v.k = "arr" THEN
+       (IF v.m = <<>> THEN << <<prefix, "[]">> >>
+        ELSE LET F[i \in 0..Len(v.m)] == IF i = 0 THEN <<>> ELSE F[i - 1] \o FlatPairs(prefix \o "." \o ToString(i), v.m[i]) IN F[Len(v.m)])
+  ELSE << <<prefix, Str(v)>> >>
+RecText(rec) == LET F[i \in 0..Len(rec)] == IF i = 0 THEN <<>> ELSE F[i - 1] \o FlatPairs(Str(rec[i][1]), rec[i][2]) IN F[Len(rec)]
 
 \* emit @name, "by1", "by2": split the nested map by its first levels, one record per leaf map, prefixed with the by-fields
 RECURSIVE EmitBy(_, _, _, _)
